@@ -116,8 +116,8 @@ def gen_cases(tier, seed):
         for cl in ("iform", "isorm", "hdc"):
             cases.append({"kind": "save", "cls": cl, "dim": 3, "sub": int(rng.integers(1 << 31))})
         for k in ("depfunc", "isodensity", "histograms", "quantiles"):
-            for _ in range(2):
-                cases.append({"kind": k, "sub": int(rng.integers(1 << 31)), "cost": 3})
+            for j_ in range(2):
+                cases.append({"kind": k, "sub": int(rng.integers(1 << 31)), "cost": 3, "shared": j_ == 1})
     for k, n in enumerate([1, 2, 17, 1000, 10000, 3, 50, 400, 2500] if tier == "quick" else [1, 2, 3, 10, 100, 1000, 5000, 10000, 7] * 5):
         cases.append({"kind": "reader", "rows": n, "stamps": ["gaps", "repeated-stamps", "unsorted"][k % 3], "sub": int(rng.integers(1 << 31))})
     return cases
@@ -286,7 +286,7 @@ def _plot_contour(case, ctx, rng):
     ctx.sample = {"kind": "plot-contour", **info, "n_points": int(len(coords))}
 
 
-def _fitted_model(rng, which=None):
+def _fitted_model(rng, which=None, shared_refit=False):
     """A small fitted 2-D model (first fit of generated data) for the plots that need interval information."""
     from virocon import GlobalHierarchicalModel, WidthOfIntervalSlicer, DependenceFunction, WeibullDistribution, LogNormalDistribution
 
@@ -307,6 +307,11 @@ def _fitted_model(rng, which=None):
     with M.quiet(), warnings.catch_warnings():
         warnings.simplefilter("ignore")
         model.fit(data)
+        if shared_refit:
+            # "same structure, several sites": a second model built from the SAME description list (the dependence-function
+            # objects are shared) is fitted to other data afterwards; the first model's plot still shows its own estimates
+            other = GlobalHierarchicalModel(dd)
+            other.fit(data[:2500] * np.array([1.3, 1.1]))
     return model, data
 
 
@@ -314,7 +319,9 @@ def _other_plots(case, ctx, rng):
     import virocon
 
     kind = case["kind"]
-    model, data = _fitted_model(rng)
+    model, data = _fitted_model(rng, shared_refit=(kind == "depfunc" and bool(case.get("shared"))))
+    if kind == "depfunc":
+        ctx.cls("dependence-functions", "shared-with-a-model-fitted-later" if case.get("shared") else "own")
     for k in REC:
         REC[k].clear()
     ctx.nontrivial = True
